@@ -403,7 +403,7 @@ def scenarios(tier, seed):
             add("mean_noise", pbs=list(p), dbs=list(d))
         add("exact_gp", n=2, m=1, shared_x=True)
         add("exact_gp", n=2, m=1, shared_x=False)
-        for kind in ("rbf+linear", "rbf*linear", "scale(rbf+rq)", "scale_rbf"):
+        for kind in ("rbf+linear", "rbf*linear", "scale(rbf+rq)", "scale_rbf", "multitask"):
             add("kernel_index", kind=kind, B=2, diag=True)
         add("variational", dist="cholesky", B=2, M=2, n=1)
         add("variational", dist="meanfield", B=3, M=1, n=2)
@@ -415,7 +415,7 @@ def scenarios(tier, seed):
             for (p, d) in pairs:
                 add("kernel", kind=kind, pbs=list(p), dbs1=list(d), dbs2=list(d))
             add("kernel", kind=kind, pbs=[2], dbs1=[2, 1], dbs2=[1, 2] if False else [2])
-        for kind in ("rbf", "rq", "linear", "rbf+linear", "rbf*linear", "scale(rbf+rq)", "scale_rbf"):
+        for kind in ("rbf", "rq", "linear", "rbf+linear", "rbf*linear", "scale(rbf+rq)", "scale_rbf", "multitask", "constant", "periodic"):
             for B in (2, 3):
                 add("kernel_index", kind=kind, B=B, diag=True)
         for kind in ("multitask", "periodic", "matern15", "poly3", "cosine", "constant", "rbf_grad", "matern52_grad", "poly_grad", "rbf_gradgrad"):
